@@ -1,38 +1,44 @@
 /-
 C02 — abstract model of `openapi3.Loader` reference resolution (openapi3/loader.go) and its specification.
 
-Objects (`Obj`) are the Go objects at reference-capable positions (`*HeaderRef`, …, `*PathItem`): either a
-reference (`ref = some text`) or a value with child positions. `kids` are the child positions the resolver
-of that kind walks (in the order of the Go code; since cbb0d05 every reference-capable position is walked).
-`home` is the context the object is written in.
+Objects (`Obj`) are the Go objects at reference-capable positions (`*HeaderRef`, …, `*PathItem`): a reference
+(`ref = some text`), a value with child positions, or an EMPTY entry (`empty`: a null member of a map or list
+that a resolver is called on — `isEmpty()`, the sentinel `errMUST<kind>`). `kids` are the child positions the
+resolver of that kind walks (in the order of the Go code). `home` is the context the object is written in.
 
 A context (`Loc`) is the pair `(doc, documentPath)` a resolver runs with. The loader passes it along as
 parameters, it is NOT a function of the object: after `component.Value = resolved.Value` every resolver
-walks the children of the value once more with the REFERRING context, and `loadSingleElementFromURI`
-switches `documentPath` but not `doc`. The model therefore takes the context as a parameter of `resolve`
-and records (`foreign`) whether a reference was ever evaluated in a context other than its home.
+walks the children of the value with the REFERRING context, and `loadSingleElementFromURI` switches
+`documentPath` but not `doc`. The model therefore takes the context as a parameter of `resolve` and records
+(`foreign`) whether a reference was ever evaluated in a context other than its home.
 
-`World.target cx text k` is the ONE-STEP meaning of a reference text evaluated in context `cx`: the context
-to continue in and the target object. The concrete layer (`LoaderJson.lean`) instantiates it with the
-loader's own path joining + typed drill-down (`stepGo`); the specification side follows RFC 3986 +
-RFC 6901 in the raw JSON (`stepSpec`). Everything in this file is parametric in it.
+`World.target cx text k` is the ONE-STEP meaning of a reference text evaluated in context `cx`. The concrete
+layer (`LoaderJson.lean`) instantiates it with the loader's own path joining + typed drill-down (`stepGo`); the
+specification side follows RFC 3986 + RFC 6901 in the raw JSON (`stepSpec`). This file is parametric in it.
 
 `resolve` follows the ten `resolve*Ref` routines (one skeleton, checked against the generated table
 `Gen.resolverSkeleton` statement by statement):
+  * `isEmpty()` → `errMUST<kind>` (an error that keeps its identity until it crosses a document load),
   * `component.Value != nil`           → nothing to do,
-  * `shouldVisitRef` false (the reference TEXT is in `visitedRefs`) → a backtrack callback is registered,
-  * `visitRef`; `resolveRefAndDocument` loads and WALKS the referenced document the first time it is
-    seen (`visitedDocuments`), with the current in-progress set,
-  * an empty target (`errMUST…` swallowed, no `unvisitRef`: the text STAYS in `visitedRefs`), drill-down,
-    type check (wrong kind → error; a nil pointer on the way → error since 25200f7),
-  * recursive resolve of the target (a local copy when the target is itself a reference) in ITS context —
-    since 9b25d89 for path items too (`if resolved.Ref != ""`),
-  * `component.Value = …`, then the second walk of the value's children: in the REFERRING context for the
-    nine component kinds (`doc, componentPath, err :=` are locals of the else-block), in the TARGET's context
-    for path items (`doc, documentPath, err =` overwrites the parameters),
-  * deferred `unvisitRef`: with a non-nil value the callbacks registered under this TEXT are run — a callback
-    of another kind leaves its component unresolved (ok-checked type assertion since a04fe6c; counted in
-    `nskip`); with a nil value they are dropped (#34; counted in `nnil`).
+  * `shouldVisitRef` false (the KEY — this routine's kind plus the reference text, 7245059 — is in
+    `visitedRefs`) → a backtrack callback is registered under the key,
+  * `visitRef`; `resolveRefAndDocument` loads and WALKS the referenced document the first time it is seen
+    (`visitedDocuments`, which a Loader keeps from one load to the next), with the current in-progress set,
+  * an empty target (`#`: `errMUST…` swallowed, no `unvisitRef`), drill-down, type check,
+  * whole-file reference: the value is set, `unvisitRef` deferred, the children are walked in the moved context
+    (a path item file that is itself a reference is resolved first, 376b90f);
+  * fragment reference: recursive resolve of the target (a local copy when the target is itself a reference) in
+    ITS context — path items only `if resolved.Ref != ""` —; the sentinel `errMUST<own kind>` coming out of that
+    call (a null member anywhere below, not across a document load) is SWALLOWED by the nine component routines:
+    `return nil` before `unvisitRef` is deferred, the component stays without value, the key stays in progress;
+  * `component.Value = …`, `defer unvisitRef`, then the walk of the value's children: in the REFERRING context for
+    the nine component kinds, in the TARGET's context for path items; an error in that walk still runs the deferred
+    `unvisitRef` (the callbacks fire) before it is returned;
+  * `unvisitRef`: with a non-nil value the callbacks registered under this key are run; with a nil value they are
+    dropped (#34; counted in `nnil`).
+Errors carry the loader state they leave behind: a Loader that is used again keeps its documents cache (and the
+objects in it, resolved as far as the failed load got); every entry point resets the in-progress set and the
+backtrack table (`loadEntry`, table `Gen.loaderEntries`).
 Fuel measures nesting depth only (`foldRes` iterates siblings with the same fuel); `Lemmas/C02Term.lean`
 proves an explicit bound under which `outOfFuel` cannot occur.
 -/
@@ -42,9 +48,16 @@ inductive Kind
   | header | parameter | requestBody | response | schema | securityScheme | example | callback | link | pathItem
   deriving DecidableEq, Repr
 
+def Kind.idx : Kind → Nat
+  | .header => 0 | .parameter => 1 | .requestBody => 2 | .response => 3 | .schema => 4 | .securityScheme => 5
+  | .example => 6 | .callback => 7 | .link => 8 | .pathItem => 9
+
 abbrev Loc := Nat
 abbrev Text := Nat
 abbrev Obj := Nat
+
+/-- the key of `visitedRefs` / `backtrack`: `"<Kind> " + ref` -/
+def key (k : Kind) (t : Text) : Nat := 10 * t + k.idx
 
 structure Node where
   kind    : Kind
@@ -54,6 +67,8 @@ structure Node where
   /-- set on the local copy `resolved` that a resolver makes of a target that is itself a reference:
       the copy is taken when the target is reached, with whatever value the original has by then -/
   orig    : Option Obj := none
+  /-- a null entry: `isEmpty()` -/
+  empty   : Bool := false
   deriving Repr
 
 structure World where
@@ -66,9 +81,8 @@ structure World where
       (the kind only matters for whole-file and untyped targets, which are decoded as that kind):
       the context to continue in, and the target object -/
   target : Loc → Text → Kind → Option (Loc × Obj)
-  /-- the resolver of a component kind walks the children of the value a second time in the referring
-      context (fragment references; a whole-file load sets the value and walks it once) -/
-  rewalk : Loc → Text → Kind → Bool := fun _ _ _ => true
+  /-- the reference has a fragment (`resolveComponent` branch); `false`: a whole-file reference -/
+  fragment : Loc → Text → Kind → Bool := fun _ _ _ => true
   /-- the drill-down yields an EMPTY component (no `$ref`, no value — the fragment `#` of a document
       without extensions): `errMUST…` is swallowed and the routine returns before `unvisitRef` is deferred -/
   emptyTarget : Loc → Text → Kind → Bool := fun _ _ _ => false
@@ -76,36 +90,38 @@ structure World where
 def World.node (w : World) (o : Obj) : Option Node := w.nodes[o]?
 
 structure St where
-  value   : List (Obj × Obj) := []    -- reference object ↦ the value object it was given
-  inprog  : List Text := []           -- visitedRefs (keyed by TEXT)
-  pending : List (Text × Obj) := []   -- backtrack callbacks
-  docs    : List Loc := []            -- visitedDocuments
+  value   : List (Obj × Obj) := []    -- reference object ↦ the value object it was given          (kept by the Loader)
+  docs    : List Loc := []            -- visitedDocuments                                          (kept by the Loader)
+  inprog  : List Nat := []            -- visitedRefs (keys)                                        (reset by every entry point)
+  pending : List (Nat × Obj) := []    -- backtrack callbacks (key, component)                      (reset by every entry point)
+  old     : List Loc := []            -- documents that were in the cache when this load began
   foreign : Bool := false             -- some reference was evaluated in a context that is not its home
   tclash  : Bool := false             -- some callback fired for a reference whose own one-step target differs from the visitor's (#29)
+  stale   : Bool := false             -- this load met a document cached by an earlier load of the same Loader
   done    : List Obj := []            -- objects whose resolver call has returned nil (instrumentation only)
+  walking : List Obj := []            -- values that have been assigned and whose children are being walked (instrumentation only)
   nback   : Nat := 0                  -- callbacks ever registered (instrumentation only)
   nnil    : Nat := 0                  -- `unvisitRef` calls with a nil value (instrumentation only)
-  nskip   : Nat := 0                  -- callbacks that found a value of another kind and returned (instrumentation only)
-  nempty  : Nat := 0                  -- swallowed `errMUST…`: returns without `unvisitRef` (instrumentation only)
+  nempty  : Nat := 0                  -- swallowed `errMUST…` of an empty TARGET (`#`) (instrumentation only)
+  nswallow : Nat := 0                 -- swallowed `errMUST…` raised by a null member below the target (instrumentation only)
   deriving Repr
 
 def St.get (s : St) (o : Obj) : Option Obj := (s.value.find? (·.1 = o)).map (·.2)
 
-/-- the two event flags of a run (kept in errors for classification only) -/
-structure Flags where
-  foreign : Bool
-  tclash  : Bool
-  deriving Repr
-
-def St.flags (s : St) : Flags := ⟨s.foreign, s.tclash⟩
-
 inductive Res
   | ok (s : St)
-  | err (fl : Flags)         -- load error (with the event flags at that moment, for classification only)
+  /-- load error: `e = some k` while it still is the sentinel `errMUST<k>`; `s` is the state the loader is left in -/
+  | err (e : Option Kind) (s : St)
   | outOfFuel
   deriving Repr
 
 def Res.isOk : Res → Bool | .ok _ => true | _ => false
+
+/-- the state a call leaves behind, whether it returned nil or an error -/
+def Res.st? : Res → Option St
+  | .ok s => some s
+  | .err _ s => some s
+  | .outOfFuel => none
 
 def foldRes (f : Nat → St → Res) : List Nat → St → Res
   | [], s => .ok s
@@ -131,88 +147,144 @@ def kindOf (w : World) (o : Obj) : Option Kind := (w.node o).map (·.kind)
 def homeTarget (w : World) (t : Text) (m : Obj) : Option (Loc × Obj) :=
   (w.node m).bind (fun nm => w.target nm.home t nm.kind)
 
-/-- `unvisitRef(ref, value)`: the callbacks registered under the text run when the value is non-nil; a
-    callback registered by a resolver of another kind returns without doing anything. `tg` is the visitor's own
-    one-step target: `tclash` records that a callback fired for a reference which, read where it is written, goes
-    somewhere else (the table is keyed by the text alone, #29). -/
-def unvisit (w : World) (k : Kind) (t : Text) (tg : Option (Loc × Obj)) (v : Option Obj) (s : St) : Res :=
+/-- `unvisitRef(key, value)`: the callbacks registered under the key run when the value is non-nil. `tg` is the
+    visitor's own one-step target: `tclash` records that a callback fired for a reference which, read where it is
+    written, goes somewhere else (the table is keyed by kind and text, not by location: #29). -/
+def unvisit (w : World) (kt : Nat) (t : Text) (tg : Option (Loc × Obj)) (v : Option Obj) (s : St) : Res :=
   match v with
-  | none => .ok { s with inprog := s.inprog.erase t, pending := s.pending.filter (·.1 ≠ t), nnil := s.nnil + 1 }
+  | none => .ok { s with inprog := s.inprog.erase kt, pending := s.pending.filter (·.1 ≠ kt), nnil := s.nnil + 1 }
   | some v =>
-    let mine := s.pending.filter (·.1 = t)
-    let fit := mine.filter (fun p => kindOf w p.2 == some k)
-    .ok { s with value := s.value ++ fit.map (fun p => (p.2, v)),
-                 inprog := s.inprog.erase t,
-                 pending := s.pending.filter (·.1 ≠ t),
-                 tclash := s.tclash || fit.any (fun p => homeTarget w t p.2 != tg),
-                 nskip := s.nskip + (mine.length - fit.length) }
+    let mine := s.pending.filter (·.1 = kt)
+    .ok { s with value := s.value ++ mine.map (fun p => (p.2, v)),
+                 inprog := s.inprog.erase kt,
+                 pending := s.pending.filter (·.1 ≠ kt),
+                 tclash := s.tclash || mine.any (fun p => homeTarget w t p.2 != tg) }
 
-/-- `loadFromDataWithPathInternal`: a document not yet in `visitedDocuments` is registered and walked -/
+/-- an error that crosses `resolveRefAndDocument` is wrapped (`error resolving reference …`): no sentinel any more -/
+def wrapErr : Res → Res
+  | .err _ s => .err none s
+  | r => r
+
+/-- `loadFromDataWithPathInternal`: a document not yet in `visitedDocuments` is registered and walked; a cached
+    one is returned as it is (`stale`: it was cached by an EARLIER load) -/
 def loadDoc (w : World) (rs : Loc → Nat → St → Res) (d : Option Loc) (s : St) : Res :=
   match d with
   | none => .ok s
   | some l =>
-    if s.docs.contains l then .ok s
-    else foldRes (rs l) (w.roots l) { s with docs := s.docs ++ [l] }
+    if s.docs.contains l then .ok { s with stale := s.stale || s.old.contains l }
+    else wrapErr (foldRes (rs l) (w.roots l) { s with docs := s.docs ++ [l] })
 
-/-- `component.Value = value`, the second walk of the value's children (`rw`; `rs` runs in the context the
-    routine continues with), then the deferred `unvisitRef` -/
-def finish (w : World) (rs : Nat → St → Res) (k : Kind) (t : Text) (tg : Option (Loc × Obj)) (o : Obj) (rw : Bool) (v : Option Obj) (s : St) : Res :=
+/-- the deferred `unvisitRef` runs also when the walk of the children failed -/
+def unvisitThen (w : World) (kt : Nat) (t : Text) (tg : Option (Loc × Obj)) (v : Obj) : Res → Res
+  | .ok s2 => unvisit w kt t tg (some v) { s2 with walking := s2.walking.tail }
+  | .err e s2 => (match unvisit w kt t tg (some v) { s2 with walking := s2.walking.tail } with
+    | .ok s3 => .err e s3
+    | r => r)
+  | .outOfFuel => .outOfFuel
+
+/-- `component.Value = value`, `defer unvisitRef`, the walk of the value's children (`rv v`: the routine's walk of
+    the value `v`, in the context the routine continues with) -/
+def finish (w : World) (rv : Nat → St → Res) (kt : Nat) (t : Text) (tg : Option (Loc × Obj)) (o : Obj) (v : Option Obj) (s : St) : Res :=
   match v with
-  | none => unvisit w k t tg none s
+  | none => unvisit w kt t tg none s
   | some v =>
-    let s1 := { s with value := s.value ++ [(o, v)] }
-    let kids := if rw then ((w.node v).map (·.kids)).getD [] else []
-    match foldRes rs kids s1 with
-    | .ok s2 => unvisit w k t tg (some v) s2
-    | e => e
+    unvisitThen w kt t tg v (rv v { s with value := s.value ++ [(o, v)], walking := v :: s.walking })
 
 /-- the resolver call on `o` returned nil -/
 def markDone (o : Obj) : Res → Res
   | .ok s => .ok { s with done := s.done ++ [o] }
   | e => e
 
+/-- the recursive call on the local copy / the loaded element, when the routine makes one (`pre`); the nine
+    component routines swallow `errMUST<own kind>` coming out of it (`swallows`) -/
+def preResolve (pre swallows : Bool) (k : Kind) (o : Obj) (r : Unit → Res) (s2 : St) (cont : St → Res) : Res :=
+  if pre then
+    match r () with
+    | .ok s3 => cont s3
+    | .err (some k') s3 =>
+      if swallows && k' == k then markDone o (.ok { s3 with nswallow := s3.nswallow + 1 }) else .err (some k') s3
+    | e => e
+  else cont s2
+
 def resolve (w : World) : Nat → Loc → Obj → St → Res
   | 0, _, _, _ => .outOfFuel
   | fuel + 1, cx, o, s =>
     match w.node o with
-    | none => .err s.flags
+    | none => .err none s
     | some n =>
+      if n.empty then .err (some n.kind) s else
       match n.ref with
       | none => markDone o (foldRes (fun k s => resolve w fuel cx k s) n.kids s)
       | some t =>
         if (getC w s o).isSome then markDone o (.ok s)
-        else if s.inprog.contains t then markDone o (.ok { s with pending := s.pending ++ [(t, o)], nback := s.nback + 1 })
+        else if s.inprog.contains (key n.kind t) then
+          markDone o (.ok { s with pending := s.pending ++ [(key n.kind t, o)], nback := s.nback + 1 })
         else
-          let s1 := { s with inprog := s.inprog ++ [t], foreign := s.foreign || (cx != n.home) }
+          let s1 := { s with inprog := s.inprog ++ [key n.kind t], foreign := s.foreign || (cx != n.home) }
           -- resolveRefAndDocument → loadFromURIInternal → ResolveRefsIn of a document seen for the first time
           match loadDoc w (fun l k s => resolve w fuel l k s) (w.docOf cx t) s1 with
           | .ok s2 =>
             if w.emptyTarget cx t n.kind then markDone o (.ok { s2 with nempty := s2.nempty + 1 }) else
             match w.target cx t n.kind with
-            | none => .err s2.flags                                     -- dangling
+            | none => .err none s2                                     -- dangling
             | some (cx', tgt) =>
               match w.node tgt with
-              | none => .err s2.flags
+              | none => .err none s2
               | some tn =>
-                if tn.kind ≠ n.kind then .err s2.flags                -- wrong kind ("bad data in …")
+                if tn.kind ≠ n.kind then .err none s2                -- wrong kind ("bad data in …")
+                else if tn.empty then .err none s2                   -- a nil pointer: drill error
                 else
-                  match resolve w fuel cx' tgt s2 with
-                  | .ok s3 =>
-                    -- path items: `doc, documentPath, err = resolveComponent(…)` — the rest of the routine runs
-                    -- in the target's context; the copy is resolved only `if resolved.Ref != ""`
-                    let wcx := if n.kind = Kind.pathItem then cx' else cx
-                    let rw := if n.kind = Kind.pathItem then tn.ref.isSome else w.rewalk cx t n.kind
-                    markDone o (finish w (fun k s => resolve w fuel wcx k s) n.kind t (some (cx', tgt)) o rw (valueOf w tgt s3) s3)
-                  | e => e
+                  let frag := w.fragment cx t n.kind
+                  let isPI := decide (n.kind = Kind.pathItem)
+                  -- the recursive call: fragment branch of the nine component routines always; path items (both
+                  -- branches) only when the copy / the loaded file is itself a reference
+                  let pre := if isPI then tn.ref.isSome else frag
+                  -- the children of the value are walked in the referring context by the fragment branch of the
+                  -- nine component routines, in the target's context otherwise
+                  let wcx := if frag && !isPI then cx else cx'
+                  preResolve pre (!isPI) n.kind o (fun _ => resolve w fuel cx' tgt s2) s2 (fun s3 =>
+                    markDone o (finish w (fun k s => resolve w fuel wcx k s) (key n.kind t) t (some (cx', tgt)) o
+                      (valueOf w tgt s3) s3))
           | e => e
 
-/-- `LoadFromFile` / `LoadFromDataWithPath`: the root document is registered, then walked -/
+/-- `LoadFromFile` / `LoadFromDataWithPath` on a fresh Loader: the root document is registered, then walked -/
 def load (w : World) (fuel : Nat) (root : Loc) : Res :=
   foldRes (fun k s => resolve w fuel root k s) (w.roots root) { docs := [root] }
 
-/-! ### Specification -/
+/-! ### One Loader, several loads -/
 
+/-- an entry point of the Loader as a load uses it -/
+structure Entry where
+  root    : Loc
+  /-- the root document has a location: it goes through `loadFromDataWithPathInternal` (documents cache) -/
+  located : Bool := true
+  /-- the entry point calls `resetVisitedPathItemRefs()` first (all of them do: table `Gen.loaderEntries`) -/
+  resets  : Bool := true
+
+/-- `resetVisitedPathItemRefs()`: what a load starts with — the Loader keeps the documents cache and the objects
+    in it; the in-progress set, the backtrack table (and the per-load instrumentation) start empty -/
+def St.reset (s : St) : St := { value := s.value, docs := s.docs, old := s.docs }
+
+/-- … and what it would start with without the reset -/
+def St.noReset (s : St) : St := { s.reset with inprog := s.inprog, pending := s.pending }
+
+def loadEntry (w : World) (fuel : Nat) (e : Entry) (s : St) : Res :=
+  let s0 := if e.resets then s.reset else s.noReset
+  if e.located then
+    -- loadFromDataWithPathInternal: a root that is in the cache is returned as it is
+    if s0.docs.contains e.root then .ok { s0 with stale := true }
+    else foldRes (fun k s => resolve w fuel e.root k s) (w.roots e.root) { s0 with docs := s0.docs ++ [e.root] }
+  else foldRes (fun k s => resolve w fuel e.root k s) (w.roots e.root) s0
+
+/-- the loads of a history, each from the state the previous one left (whether it returned a document or an error) -/
+def loadSeq (w : World) (fuel : Nat) : List Entry → St → List Res
+  | [], _ => []
+  | e :: es, s =>
+    match loadEntry w fuel e s with
+    | .outOfFuel => [.outOfFuel]
+    | r => r :: loadSeq w fuel es ((r.st?).getD s)
+
+/-! ### Specification -/
 /-- what a reference object stands for: follow the text from the context it is written in (`home`), check
     the kind of every hop, follow chains; a chain that does not end within the fuel designates nothing -/
 def designates (w : World) : Nat → Obj → Option Obj
@@ -222,7 +294,7 @@ def designates (w : World) : Nat → Obj → Option Obj
     | none => none
     | some n =>
       match n.ref with
-      | none => some o
+      | none => if n.empty then none else some o
       | some t =>
         match w.target n.home t n.kind with
         | none => none
@@ -237,10 +309,6 @@ def TextIsGlobal (w : World) : Prop :=
   ∀ a b na nb t, w.node a = some na → w.node b = some nb → na.ref = some t → nb.ref = some t →
     na.kind = nb.kind → w.target na.home t na.kind = w.target nb.home t nb.kind
 
-/-- a reference text is used by reference objects of one kind only -/
-def NoKindClash (w : World) : Prop :=
-  ∀ a b na nb t, w.node a = some na → w.node b = some nb → na.ref = some t → nb.ref = some t → na.kind = nb.kind
-
 /-- well-formedness of copies: a copy carries the reference, kind and home of its original -/
 def CopyOK (w : World) : Prop :=
   ∀ c n r, w.node c = some n → n.orig = some r →
@@ -249,9 +317,9 @@ def CopyOK (w : World) : Prop :=
 /-- recorded values are right -/
 def Good (w : World) (s : St) : Prop := ∀ o v, (o, v) ∈ s.value → ∃ f, designates w f o = some v
 
-/-- a pending entry is a reference object carrying exactly the text it waits for -/
+/-- a pending entry is a reference object carrying exactly the kind and text of the key it waits under -/
 def PendingOK (w : World) (s : St) : Prop :=
-  ∀ t m, (t, m) ∈ s.pending → ∃ n, w.node m = some n ∧ n.ref = some t
+  ∀ kt m, (kt, m) ∈ s.pending → ∃ n t, w.node m = some n ∧ n.ref = some t ∧ kt = key n.kind t
 
 /-- the objects the loaded document graph consists of: the root positions, the children of reached values,
     and the value a reached reference was given -/
